@@ -30,7 +30,8 @@ from .c16_gen import (PYWS, gen_range_header, gen_len, gen_request, gen_elements
                       content_bytes, httpdate)
 
 PROPERTY = 'C16'
-LEAN_TARGETS = ['CpProofs.C16', 'CpProofs.C16Cond', 'CpProofs.C16Elems', 'CpProofs.C16Multipart', 'drv_c16']
+LEAN_TARGETS = ['CpProofs.C16', 'CpProofs.C16Cond', 'CpProofs.C16Elems', 'CpProofs.C16Multipart', 'CpProofs.C16Flow',
+                'drv_c16']
 DRIVER = 'drv_c16'
 THEOREMS = ['CpProofs.C16.' + t for t in (
     # ranges: parsing
@@ -46,6 +47,10 @@ THEOREMS = ['CpProofs.C16.' + t for t in (
     'file_conditional_iff_dictated', 'file_not_dictated_full', 'file_304_getHead', 'file_412_reason',
     'respond_304_no_body', 'respond_unconditional_file', 'head_no_body',
     'file_range_end_to_end', 'file_http10_whole_entity', 'gen_conditional_iff_dictated', 'gen_not_dictated_full',
+    # the request flow: response.stream, handlers that validate themselves (scripts), the tool as a step
+    'respondX_legacy', 'flow_gen_run', 'runScript_pass_iff', 'flow_gen_iff_dictated', 'flow_gen_not_dictated_full',
+    'flow_gen_200_body', 'flow_304_no_body', 'flow_buffered_304_no_body', 'not_flow_304_no_body_full',
+    'flow_412_no_entity', 'flow_304_getHead', 'flow_non2xx_untouched', 'flow_file_stream',
     # list-valued validators
     'elements_tag_list', 'listed_etag_matches', 'space_codes_not_quote',
     # obligations over the regenerated tables
